@@ -309,11 +309,21 @@ func runRace(rng *rand.Rand, idx int, tier string) Case {
 	if tier == "thorough" {
 		steps = 40 + rng.Intn(120)
 	}
-	procs := []int{1, 2, 4, 16}[rng.Intn(4)]
-	if os.Getenv("VERIF_RACE_NOPROCS") != "" {
-		procs = runtime.GOMAXPROCS(0)
+	// GOMAXPROCS only ever grows within one process: shrinking it destroys Ps, and the race runtime of this toolchain
+	// occasionally segfaults (in __tsan::ThreadContext::OnFinished) when that happens while goroutines of the previous
+	// case are still finishing.  The runner starts the process with GOMAXPROCS=1 in the environment; the cases run in
+	// four blocks with 1, 2, 4 and 16 Ps.
+	rng.Intn(4)
+	total := families["race"].Quick
+	if tier == "thorough" {
+		total = families["race"].Thorough
 	}
-	old := runtime.GOMAXPROCS(procs)
+	procs := []int{1, 2, 4, 16}[min(3, idx*4/max(total, 1))]
+	if cur := runtime.GOMAXPROCS(0); procs > cur {
+		runtime.GOMAXPROCS(procs)
+	} else {
+		procs = cur
+	}
 	var wg sync.WaitGroup
 	for g := 0; g < G; g++ {
 		wg.Add(1)
@@ -348,7 +358,6 @@ func runRace(rng *rand.Rand, idx int, tier string) Case {
 			note = note[:3000]
 		}
 	}
-	runtime.GOMAXPROCS(old)
 	raceCur.Store(nil)
 	after, first := raceLogSize()
 	races := int(after - before)
